@@ -56,6 +56,57 @@ pub fn fmt_hist(h: &[Act]) -> String {
     s
 }
 
+/// inverse of `fmt_hist`
+pub fn parse_hist(s: &str) -> Option<Vec<Act>> {
+    let mut v = vec![];
+    for w in s.split_whitespace() {
+        let (a, n) = match w.split_once('^') {
+            Some((a, n)) => (a, n.parse::<usize>().ok()?),
+            None => (w, 1),
+        };
+        let act = if a == "M" {
+            Act::M
+        } else {
+            let t: u8 = a[1..].parse().ok()?;
+            match &a[..1] {
+                "S" => Act::S(t),
+                "K" => Act::K(t),
+                "W" => Act::W(t),
+                _ => return None,
+            }
+        };
+        for _ in 0..n {
+            v.push(act);
+        }
+    }
+    Some(v)
+}
+
+/// Replay one recorded schedule on one program (no search): invariant after every action and the
+/// final outcome against the collection-disabled run.
+pub fn replay_schedule(name: &str, text: &str, inputs: Vec<Input>, schedule: &str) -> Result<String, String> {
+    let prog = Prog::compile(name, text, inputs)?;
+    let hist = parse_hist(schedule).ok_or_else(|| format!("cannot parse schedule `{schedule}`"))?;
+    let (reference, _) = reference(&prog, 200_000);
+    let mut s = Sys::new(&prog);
+    for (i, a) in hist.iter().enumerate() {
+        s.apply(*a);
+        if let Err(e) = s.invariant() {
+            return Err(format!("after action {} of `{schedule}`: {e}", i + 1));
+        }
+        if let Some(v) = &s.precision_violation {
+            return Err(format!("after action {} of `{schedule}`: {v}", i + 1));
+        }
+    }
+    if s.terminal() {
+        let o = s.outcome();
+        if o != reference {
+            return Err(format!("outcome {:?} differs from the collection-disabled run {:?}", (&o.end, &o.emits, &o.out), (&reference.end, &reference.emits, &reference.out)));
+        }
+    }
+    Ok(format!("schedule of {} actions replayed, invariant held in every state", hist.len()))
+}
+
 pub struct Prog {
     pub name: String,
     pub text: String,
